@@ -9,6 +9,7 @@ import (
 	proto "github.com/kubewharf/kubebrain-client/api/v2rpc"
 
 	"github.com/kubewharf/kubebrain/pkg/backend"
+	"github.com/kubewharf/kubebrain/pkg/server/brain"
 
 	"verif/internal/harness"
 )
@@ -22,7 +23,7 @@ func init() {
 		Plan: func(tier string) Plan {
 			return Plan{Level: "exploration", NCases: pick(tier, 200, 30000), Batch: 4, CaseTimeout: 120,
 				Rule: "one case = a PRNG sequence of 6-20 compaction requests (increasing, repeated, decreasing, 0, above current) interleaved with writes on one engine (every 8th case over 650-950 additional keys, several 300-kv stream batches); after each accepted compaction the monitor raises floor=max(floor, effective revision from the response header), reads the stored compaction record, and issues List / ListByStream at revisions around every past floor and Count at latest, on the compacting node and on a second node over the same store (which adopts the first node's read revision as a follower does). " +
-					"Every 8th case is instead two OVERLAPPING requests: Compact(low) is held at its 1st-3rd read of / write to the compaction record (hook in the storage wrapper), Compact(high) runs to completion, then the first continues; the record must not end below the highest accepted effective revision and reads below it must be refused. " +
+					"Every 8th case is instead two OVERLAPPING requests: one request (naming the lower or the higher revision) is held at its 1st-3rd read of / write to the compaction record (hook in the storage wrapper), the other runs to completion, then the first continues; requests go to the backend or through the native server's Compact handler; the record must not end below the highest accepted effective revision and reads below it must be refused. " +
 					"non-trivial = sequence containing >=1 request naming an older revision than an earlier accepted one and >=1 read refused below the floor; distinct by (engine, request vector)",
 				Assumptions: []string{"only compactions that returned without error raise the monitor's floor"},
 				MinConcl:    pick(tier, 150, 25000)}
@@ -283,6 +284,28 @@ func runC08Overlap(c *harness.Case) {
 	cur := n.Committed()
 	low := n.Start + 2 + uint64(r.Int63n(int64(cur-n.Start-4)))
 	high := low + 1 + uint64(r.Int63n(int64(cur-low)))
+	// the held request names the lower or the higher revision; requests go to the backend or through the native
+	// server's Compact handler (which is what a client or the leader's compaction loop reaches)
+	first, second := low, high
+	if r.Intn(2) == 0 {
+		first, second = high, low
+	}
+	viaServer := r.Intn(2) == 0
+	bs := brain.New(n.B, n.Metrics, harness.NewPeers(true))
+	doCompact := func(rev uint64) (uint64, error) {
+		if viaServer {
+			resp, cerr := bs.Compact(harness.Ctx, &proto.CompactRequest{Revision: rev})
+			if cerr != nil {
+				return 0, cerr
+			}
+			return resp.Header.GetRevision(), nil
+		}
+		resp, cerr := n.B.Compact(harness.Ctx, rev)
+		if cerr != nil {
+			return 0, cerr
+		}
+		return resp.Header.GetRevision(), nil
+	}
 	compactKey := []byte(harness.Prefix + "/compact_key")
 	// hold A at its k-th access of the given kind to the compaction record
 	holdKind := []string{"after-read", "before-write"}[r.Intn(2)]
@@ -318,12 +341,8 @@ func runC08Overlap(c *harness.Case) {
 	}
 	aDone := make(chan ans, 1)
 	go func() {
-		resp, cerr := n.B.Compact(harness.Ctx, low)
-		a := ans{err: cerr}
-		if cerr == nil {
-			a.rev = resp.Header.GetRevision()
-		}
-		aDone <- a
+		rev, cerr := doCompact(first)
+		aDone <- ans{rev: rev, err: cerr}
 	}()
 	placed := false
 	var aAns ans
@@ -334,19 +353,19 @@ func runC08Overlap(c *harness.Case) {
 		atomic.StoreInt32(&armed, 0) // A made fewer such accesses: no overlap, the sequential order A then B is checked
 		aDone <- aAns
 	}
-	respB, errB := n.B.Compact(harness.Ctx, high)
+	revB, errB := doCompact(second)
 	if placed {
 		close(release)
 	}
 	aAns = <-aDone
 	w.AfterGet, w.BeforeCommit = nil, nil
-	hist = append(hist, fmt.Sprintf("Compact(%d) [held %s #%d of the compaction record: %v] -> (%d, %v)   overlapped by   Compact(%d) -> (%v, %v)", low, holdKind, holdAt, placed, aAns.rev, aAns.err, high, respB.GetHeader().GetRevision(), errB))
+	hist = append(hist, fmt.Sprintf("Compact(%d) [held %s #%d of the compaction record: %v; via native server handler: %v] -> (%d, %v)   overlapped by   Compact(%d) -> (%d, %v)", first, holdKind, holdAt, placed, viaServer, aAns.rev, aAns.err, second, revB, errB))
 	var floor uint64
 	if aAns.err == nil && aAns.rev > floor {
 		floor = aAns.rev
 	}
-	if errB == nil && respB.Header.GetRevision() > floor {
-		floor = respB.Header.GetRevision()
+	if errB == nil && revB > floor {
+		floor = revB
 	}
 	if floor == 0 {
 		c.Inconclusive("both compaction requests failed")
@@ -384,7 +403,8 @@ func runC08Overlap(c *harness.Case) {
 		c.Stat("overlapping_compactions_placed", 1)
 	}
 	c.AddSet("engines", kind)
-	c.AddSet("overlap_hold_points", fmt.Sprintf("%s#%d", holdKind, holdAt))
+	c.AddSet("overlap_hold_points", fmt.Sprintf("%s#%d held=%s", holdKind, holdAt, map[bool]string{true: "lower", false: "higher"}[first == low]))
+	c.AddSet("overlap_request_paths", map[bool]string{true: "native server handler", false: "backend"}[viaServer])
 	c.Fingerprint(placed, "overlap", kind, holdKind, holdAt, c.Index)
 	if c.Index < 24 {
 		c.R.Sample = wit()
